@@ -98,7 +98,7 @@ def bump_typed(rng, d):
 
 # ---------------------------------------------------------------- generation
 def gen_program(rng, pkg, n=None, p_explicit=0.15, p_hidden=0.12, min_memento=2, p_lambda_pair=0.3, p_shadow=0.2,
-                p_init=0.3, p_ext=0.3, p_factory=0.3, p_diamond=0.25):
+                p_init=0.3, p_ext=0.3, p_factory=0.3, p_diamond=0.25, p_prev=0.15):
     n = n or rng.randint(3, 7)
     split = rng.randint(0, n - 1)  # nodes [0, split) live in module b, the rest in module a
     shadow = n >= 4 and rng.random() < p_shadow  # a wrapped helper of module b whose wrapper parameter is "a"
@@ -289,6 +289,18 @@ def gen_program(rng, pkg, n=None, p_explicit=0.15, p_hidden=0.12, min_memento=2,
                 if not any(c["t"] == j for c in nodes[u]["calls"]):
                     f = "attr" if (nodes[u]["mod"] == "b" and rng.random() < 0.3) else "bare"
                     nodes[u]["calls"].append({"t": j, "form": f})
+    if p_prev and rng.random() < p_prev:
+        # a plain helper that was defined twice: the name <helper>_old still refers to the earlier definition, and one
+        # function of its module uses both
+        pl = [j for j in range(1, n) if nodes[j]["kind"] == "plain" and nodes[j]["mod"] in ("a", "b")
+              and any(nodes[u]["mod"] == nodes[j]["mod"] and nodes[u]["kind"] in ("memento", "plain") for u in range(j))]
+        if pl:
+            j = rng.choice(pl)
+            nodes[j]["prev"] = {"const": nodes[j]["const"] + rng.randint(1, 5) + 20}
+            u = rng.choice([u for u in range(j) if nodes[u]["mod"] == nodes[j]["mod"] and nodes[u]["kind"] in ("memento", "plain")])
+            if not any(c["t"] == j and c["form"] == "bare" for c in nodes[u]["calls"]):
+                nodes[u]["calls"].append({"t": j, "form": "bare"})
+            nodes[u]["calls"].append({"t": j, "form": "old"})
     aliases = []
     for i, nd in enumerate(nodes):
         for c in list(nd["calls"]):
@@ -400,6 +412,8 @@ def call_expr(prog, nd, c, arg="x"):
         return "lib.%s(%s)" % (t["name"], arg)
     if c["form"] == "alias":
         return "%s(%s)" % (c["alias"], arg)
+    if c["form"] == "old":  # the earlier definition of the helper, through the name that still refers to it
+        return "%s_old(%s)" % (t["name"], arg)
     return "globals()[\"%s\"](%s)" % (t["name"], arg)  # hidden dynamic call
 
 
@@ -440,6 +454,9 @@ def render_def(prog, i, skip_names=()):
         L += ["def deco_%s(fn):" % nd["name"], "    @functools.wraps(fn)",
               "    def wrapper(%s, *rest, **kw):" % wp, "        return fn(%s, *rest, **kw)" % wp, "    return wrapper", "",
               "@deco_%s" % nd["name"]]
+    if nd.get("prev"):
+        L += ["def %s(x):" % nd["name"], "    REC.hit(%r, x)" % (nd["name"] + "_old"), "    return x * 2 + %d" % nd["prev"]["const"], "",
+              "%s_old = %s" % (nd["name"], nd["name"]), ""]
     L.append("def %s(%s):" % (nd["name"], ", ".join(ps)))
     L.append("    REC.hit(%r, %s)" % (nd["name"], ", ".join(names)))
     first = ("x %s %d" % (nd["op"], nd["const"])) if not nd["swap"] else ("%d %s x" % (nd["const"], nd["op"]))
@@ -721,7 +738,7 @@ def apply_special(rng, prog, kind):
 
 EDIT_KINDS = ["const", "xconst", "tconst", "tperm", "builtin", "sconst", "nested_const", "op", "swap", "add_param", "default", "kwdefault",
               "add_call", "remove_call", "retarget_call", "retarget_alias", "var_value", "var_mutate", "version_bump",
-              "hidden_target"]
+              "hidden_target", "prev_const"]
 
 
 def apply_edit(rng, prog, kind=None, force_var=None):
@@ -749,6 +766,11 @@ def apply_edit(rng, prog, kind=None, force_var=None):
         i = cand[0]
         nodes[i]["const"] += rng.randint(1, 5)
         return done(i)
+    if kind == "prev_const":  # the body of an earlier definition that an old name still refers to
+        for i in cand:
+            if nodes[i].get("prev"):
+                nodes[i]["prev"]["const"] += rng.randint(1, 5)
+                return done(i)
     if kind == "xconst":
         for i in cand:
             if nodes[i].get("xconst") is not None:
